@@ -196,6 +196,18 @@ def gymStateStep {Rep} (e : EnvSpec) (o : OuterSpec Rep) (m : Machine) (i : Int)
     | (m'', _) => (m'', .err .runtimeError)
   | (m', out) => (m', out)
 
+/-- `GymStateWrapper.reset()`: resets (which also computes the observation), returns the state
+representation -/
+def gymStateReset {Rep} (e : EnvSpec) (o : OuterSpec Rep) (m : Machine) : Machine × GymOut Rep :=
+  match gymReset e o m with
+  | (m', .reset _) =>
+    match outerState e o m' with
+    | (m'', .rep st) => (m'', .reset st)
+    | (m'', .err err) => (m'', .err err)
+    | (m'', .inner (.err err)) => (m'', .err err)
+    | (m'', _) => (m'', .err .runtimeError)
+  | (m', out) => (m', out)
+
 /-- the concrete observation functions the driver can run (`stochastic_raytracing` is exercised at
 the visibility level only) -/
 inductive VisKind | ft | po | rt
